@@ -228,6 +228,27 @@ def history(p, lib):
             out['fetches'] += len(reqs)
             check_requests(hist, mode, reqs, pages)
 
+    def retry_pass_sync(hist, client, log_of, set_faulty_script, decode):
+        """The caller's explicit retry must also govern the later fetches: one transient UNAVAILABLE is injected before
+        the last page; with the retry threaded through, the pager still yields every item exactly once."""
+        if len(hist) < 2:
+            return
+        from google.api_core import retry as retries, exceptions as core_exc
+        pages, all_items = make_pages(p, a, hist)
+        set_faulty_script(pages)
+        r = retries.Retry(predicate=retries.if_exception_type(core_exc.ServiceUnavailable), initial=0.5, maximum=0.5, multiplier=1.0,
+                          timeout=600.0)
+        try:
+            pager = getattr(client, a['py'])(request=dict(init), retry=r, timeout=TIMEOUT, metadata=[META])
+            got_all = [item_view(kind, x) for x in pager]
+        except BaseException as e:
+            return fail(hist, 'items+retry', len(hist) - 1, 'explicit-retry-not-applied-to-later-page', probelib.exc_info(e))
+        if not same_items(got_all, pages):
+            fail(hist, 'items+retry', len(pages), 'items', f'{got_all} != {all_items}')
+        if len(log_of()) != len(pages) + 1:
+            fail(hist, 'items+retry', len(pages), 'fetch-count', f'{len(log_of())} fetches for {len(pages)} pages and one injected fault')
+        out['fetches'] += len(log_of())
+
     def note(hist):
         out['histories'] += 1
         if len(hist) >= 2:
@@ -242,8 +263,14 @@ def history(p, lib):
         def set_script(pages):
             ch.log.clear()
             ch.script = [pg.SerializeToString() for pg, _ in pages]
+        def set_faulty(pages):
+            import grpc
+            ch.log.clear()
+            raws = [pg.SerializeToString() for pg, _ in pages]
+            ch.script = raws[:-1] + [seams.Err(grpc.StatusCode.UNAVAILABLE)] + raws[-1:]
         for hist in all_histories():
             run_sync(hist, client, lambda: ch.log, set_script, lambda log: (grpc_requests(log), None))
+            retry_pass_sync(hist, client, lambda: ch.log, set_faulty, None)
             note(hist)
     elif a['client'] == 'rest':
         seam = seams.HttpSeam().install()
@@ -252,8 +279,13 @@ def history(p, lib):
         def set_script(pages):
             seam.log.clear()
             seam.script = [(200, json_format.MessageToJson(pg).encode()) for pg, _ in pages]
+        def set_faulty(pages):
+            seam.log.clear()
+            ok = [(200, json_format.MessageToJson(pg).encode()) for pg, _ in pages]
+            seam.script = ok[:-1] + [(503, b'{"error": {"code": 503, "message": "try again", "status": "UNAVAILABLE"}}')] + ok[-1:]
         for hist in all_histories():
             run_sync(hist, client, lambda: seam.log, set_script, rest_requests)
+            retry_pass_sync(hist, client, lambda: seam.log, set_faulty, None)
             note(hist)
     else:
         async def amain():
@@ -293,6 +325,24 @@ def history(p, lib):
                     reqs = grpc_requests(ch.log)
                     out['fetches'] += len(reqs)
                     check_requests(hist, mode, reqs, pages)
+                if len(hist) >= 2:
+                    import grpc
+                    from google.api_core import retry_async, retry as retries, exceptions as core_exc
+                    ch.log.clear()
+                    raws = [pg.SerializeToString() for pg, _ in pages]
+                    ch.script = raws[:-1] + [seams.Err(grpc.StatusCode.UNAVAILABLE)] + raws[-1:]
+                    r = retry_async.AsyncRetry(predicate=retries.if_exception_type(core_exc.ServiceUnavailable), initial=0.5, maximum=0.5,
+                                               multiplier=1.0, timeout=600.0)
+                    try:
+                        pager = await getattr(client, a['py'])(request=dict(init), retry=r, timeout=TIMEOUT, metadata=[META])
+                        got_all = [item_view(kind, x) async for x in pager]
+                        if not same_items(got_all, pages):
+                            fail(hist, 'items+retry', len(pages), 'items', f'{got_all} != {all_items}')
+                        if len(ch.log) != len(pages) + 1:
+                            fail(hist, 'items+retry', len(pages), 'fetch-count', f'{len(ch.log)} fetches')
+                        out['fetches'] += len(ch.log)
+                    except BaseException as e:
+                        fail(hist, 'items+retry', len(hist) - 1, 'explicit-retry-not-applied-to-later-page', probelib.exc_info(e))
                 note(hist)
         asyncio.run(amain())
     return out
